@@ -235,6 +235,72 @@ example :
     hausDirected pa pb 3 2 2 ⟨⟨2, 1, 0⟩, 51/25⟩ = 9 ∧ hausDirected pb pa 2 3 2 ⟨⟨2, 1, 0⟩, 51/25⟩ = 4 := by
   decide +kernel
 
+/-- `possible_dist_max_node` with the `abs` of the centre differences dropped ("it is squared anyway"): the variant is NOT an
+    upper bound when box `b` lies on the + side of box `a` -/
+def ubNode2Signed (a b : Box) : Rat :=
+  let dw := a.w + b.w
+  sq (a.c.x - b.c.x + dw) + sq (a.c.y - b.c.y + dw) + sq (a.c.z - b.c.z + dw)
+
+/-- **C16_ub_needs_abs_counterexample**: the `abs` in the box-to-box upper bound is needed for the sense of the direction
+    from the source box to the target box: for a target box on the + side the signed variant is below an actual pair distance
+    (so `C16_ub_sound` fails for it), while for the point-reflected configuration it coincides with `ubNode2`. -/
+theorem C16_ub_needs_abs_counterexample :
+    let a : Box := ⟨⟨0, 0, 0⟩, 1⟩
+    let b : Box := ⟨⟨10, 0, 0⟩, 1⟩
+    inBox a ⟨-1, 0, 0⟩ = true ∧ inBox b ⟨11, 0, 0⟩ = true ∧
+    ubNode2Signed a b < dist2 ⟨-1, 0, 0⟩ ⟨11, 0, 0⟩ ∧ dist2 ⟨-1, 0, 0⟩ ⟨11, 0, 0⟩ ≤ ubNode2 a b ∧
+    ubNode2Signed b a = ubNode2 b a := by
+  decide +kernel
+
+theorem dist2_pos_of_ne (p q : P3) (h : p ≠ q) : 0 < dist2 p q := by
+  rcases p with ⟨px, py, pz⟩
+  rcases q with ⟨qx, qy, qz⟩
+  simp only [dist2, sq]
+  by_contra hc
+  have h0 : (px - qx) * (px - qx) + (py - qy) * (py - qy) + (pz - qz) * (pz - qz) ≤ 0 := not_lt.mp hc
+  have hx : px - qx = 0 := mul_self_eq_zero.mp (le_antisymm
+    (by nlinarith [mul_self_nonneg (py - qy), mul_self_nonneg (pz - qz)]) (mul_self_nonneg _))
+  have hy : py - qy = 0 := mul_self_eq_zero.mp (le_antisymm
+    (by nlinarith [mul_self_nonneg (px - qx), mul_self_nonneg (pz - qz)]) (mul_self_nonneg _))
+  have hz : pz - qz = 0 := mul_self_eq_zero.mp (le_antisymm
+    (by nlinarith [mul_self_nonneg (px - qx), mul_self_nonneg (py - qy)]) (mul_self_nonneg _))
+  apply h
+  have e1 : px = qx := by linarith
+  have e2 : py = qy := by linarith
+  have e3 : pz = qz := by linarith
+  subst e1; subst e2; subst e3; rfl
+
+/-- **C16_hausdorff_positive**: the directed Hausdorff distance is zero only if every source point IS a target point -- there
+    is no tolerance in the definition: one source point that differs from every target point (by however little, relative to
+    the size of the coordinates) makes the value positive.  (A "same cloud" shortcut may test exact equality only.) -/
+theorem C16_hausdorff_positive (ptA ptB : Nat → P3) (nA nB : Nat) (h : Rat) (H : IsHausdorff2 ptA ptB nA nB h)
+    (i : Nat) (hi : i < nA) (hne : ∀ j, j < nB → ptA i ≠ ptB j) : 0 < h := by
+  obtain ⟨m, ⟨⟨j, hj, hjm⟩, _⟩, hmh⟩ := H.2 i hi
+  have := dist2_pos_of_ne (ptA i) (ptB j) (hne j hj)
+  rw [hjm] at this
+  exact lt_of_lt_of_le this hmh
+
+/-- non-vacuity: two clouds of equal size and order at coordinates ~10^7 that differ by one unit in one coordinate of one point
+    (relative 10^-7): the directed values are 1 both ways, not 0 -/
+example :
+    let A : List P3 := [⟨10000000, -30000000, 20000000⟩, ⟨10000040, -30000000, 20000007⟩, ⟨10000013, -29999990, 20000000⟩]
+    let B : List P3 := [⟨10000000, -30000000, 20000000⟩, ⟨10000040, -30000001, 20000007⟩, ⟨10000013, -29999990, 20000000⟩]
+    let pa : Nat → P3 := fun i => A.getD i ⟨0, 0, 0⟩
+    let pb : Nat → P3 := fun i => B.getD i ⟨0, 0, 0⟩
+    let root : Box := ⟨⟨10000020, -29999995, 20000007/2⟩, 51/100 * 40⟩
+    hausDirected pa pb 3 3 2 root = 1 ∧ hausDirected pb pa 3 3 2 root = 1 ∧ pa 1 ≠ pb 0 ∧ pa 1 ≠ pb 1 ∧ pa 1 ≠ pb 2 := by
+  decide +kernel
+
+/-- **C16_hausdorff_directed_not_symmetric**: the two directed values differ in general (here 9 from the larger set to the
+    smaller one, 4 the other way): `directed=True` must answer for (self -> target) whichever cloud is larger. -/
+theorem C16_hausdorff_directed_not_symmetric :
+    let A : List P3 := [⟨0, 0, 0⟩, ⟨4, 0, 0⟩, ⟨0, 0, 0⟩]
+    let B : List P3 := [⟨1, 0, 0⟩, ⟨0, 2, 0⟩]
+    let pa : Nat → P3 := fun i => A.getD i ⟨0, 0, 0⟩
+    let pb : Nat → P3 := fun i => B.getD i ⟨0, 0, 0⟩
+    hausDirected pa pb 3 2 2 ⟨⟨2, 1, 0⟩, 51/25⟩ ≠ hausDirected pb pa 2 3 2 ⟨⟨2, 1, 0⟩, 51/25⟩ := by
+  decide +kernel
+
 /-! ## hop graph -/
 
 /-- **C16_hop_graph**: the BFS kernels return exactly the vertices reachable in the node–element graph through
